@@ -755,6 +755,24 @@ func VerifH19c() {
 	if nondetBool() {
 		opts = append(opts, Version("15"))
 	}
+	// the option may be given more than once (whichever way the library
+	// combines them, it never writes into a map the caller handed in)
+	var second Parameters
+	twice := nondetBool()
+	if twice {
+		second = Parameters{"second": "w"}
+		opts = append(opts, GlobalParameters(second))
+	}
+	// a terminate hook: it runs once for EVERY connection that sends Terminate,
+	// with that connection's context
+	var hooks [2]int
+	withHook := nondetBool()
+	if withHook {
+		opts = append(opts, TerminateConn(func(ctx context.Context) error {
+			hooks[RemoteAddress(ctx).(vAddr).id]++
+			return nil
+		}))
+	}
 	var kept [2]context.Context
 	parse := func(ctx context.Context, query string) (PreparedStatements, error) {
 		kept[RemoteAddress(ctx).(vAddr).id] = ctx
@@ -771,6 +789,10 @@ func VerifH19c() {
 	srv.serve(context.Background(), c1) //nolint
 	srv.serve(context.Background(), c2) //nolint
 	vAssert("both-parsers-ran", kept[0] != nil && kept[1] != nil)
+	if withHook {
+		vAssert("terminate-hook-once-for-each-connection", hooks[0] == 1 && hooks[1] == 1)
+		vReach("terminate-hook-on-both-connections")
+	}
 	if kept[0] == nil || kept[1] == nil {
 		return
 	}
@@ -790,6 +812,10 @@ func VerifH19c() {
 	}
 	if gkind == 1 {
 		vAssert("configured-empty-map-untouched", len(global) == 0)
+	}
+	if twice {
+		vAssert("second-configured-map-untouched", len(second) == 1 && second["second"] == "w")
+		vReach("parameters-configured-twice")
 	}
 	if !vEqBytes(u1, u2) {
 		vReach("different-users")
